@@ -2,58 +2,93 @@
   C18 — column partitioning keeps triples intact, groups by column and orders by row.
 -/
 import Robotools.Model.Plan
+import Robotools.Proofs.PlanLemmas
 namespace Robotools.C18
 open Robotools
 
 /-- The groups together contain exactly the input triples (as a multiset; no triple torn apart). -/
 theorem perm (ts : List Triple) (byDest : Bool) :
     (partitionByColumn ts byDest).flatten.Perm ts := by
-  sorry
+  exact partitionByColumn_flatten_perm ts byDest
 
 /-- Every group holds wells of a single column of the partitioning side:
     the `i`-th group consists of triples whose column key is the `i`-th group key. -/
 theorem single_column (ts : List Triple) (byDest : Bool) (i : Nat) (g : List Triple) (k : List Nat)
     (hg : (partitionByColumn ts byDest)[i]? = some g) (hk : (groupKeys byDest ts)[i]? = some k) :
     ∀ t ∈ g, t.group byDest = k := by
-  sorry
+  unfold partitionByColumn at hg
+  rw [List.getElem?_map, hk] at hg
+  simp only [Option.map_some, Option.some.injEq] at hg
+  subst hg
+  intro t ht
+  rw [List.mem_mergeSort, List.mem_filter] at ht
+  simpa using ht.2
 
 /-- There are as many groups as distinct column keys, none of them empty. -/
 theorem groups_nonempty (ts : List Triple) (byDest : Bool) :
     (partitionByColumn ts byDest).length = (groupKeys byDest ts).length
     ∧ ∀ g ∈ partitionByColumn ts byDest, g ≠ [] := by
-  sorry
+  refine ⟨by simp [partitionByColumn], ?_⟩
+  intro g hg
+  unfold partitionByColumn at hg
+  obtain ⟨k, hk, rfl⟩ := List.mem_map.mp hg
+  obtain ⟨t, ht, htk⟩ := (mem_groupKeys byDest ts k).mp hk
+  have hmem : t ∈ (ts.filter fun t => t.group byDest = k).mergeSort
+      (fun a b => a.key byDest ≤ b.key byDest) := by
+    rw [List.mem_mergeSort, List.mem_filter]
+    exact ⟨ht, by simpa using htk⟩
+  exact List.ne_nil_of_mem hmem
 
 /-- Groups are ordered by strictly ascending column key. -/
 theorem groups_sorted (ts : List Triple) (byDest : Bool) :
     (groupKeys byDest ts).Pairwise (· < ·) := by
-  sorry
+  exact pairwise_groupKeys byDest ts
 
 /-- Every column key that occurs in the input has a group, and only those. -/
 theorem group_keys_complete (ts : List Triple) (byDest : Bool) (k : List Nat) :
     k ∈ groupKeys byDest ts ↔ ∃ t ∈ ts, t.group byDest = k := by
-  sorry
+  exact mem_groupKeys byDest ts k
 
 /-- Within a group the triples are ordered by ascending well ID of the partitioning side
     (rows ascending, since all wells of a group share the column suffix). -/
 theorem rows_sorted (ts : List Triple) (byDest : Bool) :
     ∀ g ∈ partitionByColumn ts byDest, g.Pairwise (fun a b => a.key byDest ≤ b.key byDest) := by
-  sorry
+  intro g hg
+  unfold partitionByColumn at hg
+  obtain ⟨k, _, rfl⟩ := List.mem_map.mp hg
+  have h := List.pairwise_mergeSort
+    (le := fun a b : Triple => decide (a.key byDest ≤ b.key byDest))
+    (fun a b c hab hbc => by
+      simp only [decide_eq_true_eq] at hab hbc ⊢
+      exact key_le_trans hab hbc)
+    (fun a b => by
+      simp only [Bool.or_eq_true, decide_eq_true_eq]
+      exact key_le_total _ _)
+    (ts.filter fun t => t.group byDest = k)
+  exact h.imp fun {a b} hab => by simpa using hab
 
 /-- The automatic choice partitions by destination exactly when the source is a trough and the
     destination is not; explicit choices are respected; other names are rejected. -/
 theorem auto_rule (s d : Bool) :
     optimizePartitionBy s d "auto" = some (s && !d) := by
-  sorry
+  simp [optimizePartitionBy]
 
 theorem explicit_respected (s d : Bool) :
     optimizePartitionBy s d "source" = some false ∧ optimizePartitionBy s d "destination" = some true := by
-  sorry
+  constructor <;> simp [optimizePartitionBy] <;> decide
 
 theorem invalid_mode_rejected (s d : Bool) (m : String)
     (h : m ≠ "auto" ∧ m ≠ "source" ∧ m ≠ "destination") : optimizePartitionBy s d m = none := by
-  sorry
+  simp [optimizePartitionBy, h.1, h.2.1, h.2.2]
 
 example : partitionByColumn [⟨"B02", "A01", 1⟩, ⟨"A01", "B01", 2⟩, ⟨"A02", "C01", 3⟩] false
-    = [[⟨"A01", "B01", 2⟩], [⟨"A02", "C01", 3⟩, ⟨"B02", "A01", 1⟩]] := by decide +kernel
+    = [[⟨"A01", "B01", 2⟩], [⟨"A02", "C01", 3⟩, ⟨"B02", "A01", 1⟩]] := by
+  -- `List.mergeSort` is defined by well-founded recursion, so `decide` cannot evaluate it;
+  -- evaluate the keys by kernel reduction and unfold the sort with `simp`.
+  have hk : groupKeys false [⟨"B02", "A01", 1⟩, ⟨"A01", "B01", 2⟩, ⟨"A02", "C01", 3⟩]
+      = [[48, 49], [48, 50]] := by decide +kernel
+  unfold partitionByColumn
+  rw [hk]
+  simp +decide [List.mergeSort, Triple.group, Triple.key, strKey, List.filter]
 
 end Robotools.C18
